@@ -98,6 +98,8 @@ class Ctx:
         if isinstance(ident, dict) and ident.get('warmup'):
             # parser cases whose sentence is parsed after other sentences of the same call (parser_checks.execute)
             self.classes['(sentence not first in its call)'] += 1
+        if isinstance(ident, dict) and ident.get('via_pool'):
+            self.classes['(through the multi-process branch, pickled arguments and results)'] += 1
         if cls is not None:
             self.classes[cls] += 1
         if nontrivial:
